@@ -402,6 +402,7 @@ def run(ctx):
         ctx.fail_closed('F-PUT', 'Encoder::put is not the caller of Write::write_all any more')
     else:
         fns = [(f.get('rpath') or f.get('path')) for f, sp in mir.fn_consts_in_body(put['body'])]
+        fns += [mir.callee_path(t_) for _, t_ in mir.iter_calls(put['body']) if mir.callee_path(t_)]     # `Err(e) => Err(Error::write(e))` is as good as `map_err(Error::write)`
         if 'minicbor::encode::error::Error::<E>::write' in fns:
             ctx.ok('F-PUT.err', 'put maps sink errors with Error::write')
         else:
